@@ -1,7 +1,24 @@
 (* Line-protocol driver around the extracted C01 model (coq/Storage/{Backend,Header,Window}.v).
 
-   usage:  c01_driver windows < windows.txt       > windows_model.txt
-           c01_driver recover < recover_cases.txt > recover_model.txt
+   usage:  c01_driver windows  < windows.txt       > windows_model.txt
+           c01_driver recover  < recover_cases.txt > recover_model.txt
+           c01_driver protocol < protocol.txt      > protocol_model.txt
+
+   protocol.txt (written by harness/src/bin/c01.rs): the REAL operation stream as protocol-level segments
+     P <tag> <hdr hex 320> <len>          start of a trace: header and length of the image it starts from
+     G <kind>                             create | open <p> <vq> | txn1 | txn2 | nd | abort | compact | close | gap
+     O H <hex 320> | O W <off> <len> | O L <n> | O S          the operations the real crate issued
+     E
+   For every segment the extracted protocol model (coq/Storage/Protocol.v: run_step / recovery_run) is fed the
+   abstract inputs -- the kind of the step (from the harness, NOT from the stream, for user transactions,
+   close and open), the page writes, the new slot bytes, growth / shrink targets and region counts taken from
+   the stream -- and the operations it emits are compared with the real ones: per sync window the sequence of
+   header writes (all 320 bytes) and set_len calls, in order, and the SET of page writes (offset, length).
+   A page write is handed to the model as (offset, [length]): the model is parametric in page contents, so
+   the one-element "data" carries the length through unchanged (no megabyte lists).
+   protocol_model.txt
+     S <tag> <index> <kind> ok
+     S <tag> <index> <kind> DIFF <what> | model=<abstract stream> | real=<abstract stream>
 
    windows.txt (written by harness/src/bin/c01.rs)
      T <tag> <page size>                                      start of a trace (a recorded operation stream)
@@ -196,8 +213,228 @@ let run_recover () =
     | _ -> failwith "bad recover line"
   done with End_of_file -> ())
 
+
+(* ---- protocol: the extracted protocol model against the real operation stream ---- *)
+type rop = RH of n list | RW of n * n | RL of n | RS
+
+let hex_of_bytes (b : n list) : string =
+  String.concat "" (List.map (fun x -> let h = hex_of_n x in if String.length h = 1 then "0" ^ h else h) b)
+
+(* a stream cut at its syncs: per window the header writes / set_len calls in order and the sorted page set;
+   the last element is the (possibly empty) unsynced tail *)
+type awin = { nonpage : string list; pageset : (string * string) list; synced : bool }
+
+let abs_stream (ops : rop list) : awin list =
+  let fin np pg synced = { nonpage = List.rev np; pageset = List.sort compare pg; synced } in
+  let rec go np pg acc = function
+    | [] -> List.rev (if np = [] && pg = [] then acc else fin np pg false :: acc)
+    | RS :: r -> go [] [] (fin np pg true :: acc) r
+    | RH h :: r -> go (("H:" ^ hex_of_bytes h) :: np) pg acc r
+    | RL x :: r -> go (("L:" ^ hex_of_n x) :: np) pg acc r
+    | RW (o, l) :: r -> go np ((hex_of_n o, hex_of_n l) :: pg) acc r in
+  go [] [] [] ops
+
+let rop_of_op (o : op) : rop =
+  match o with
+  | Sync -> RS
+  | SetLen x -> RL x
+  | Write (off, data) ->
+      if off = N0 && List.length data = 320 then RH data
+      else (match data with [l] -> RW (off, l) | _ -> RW (off, n_of_dec (string_of_int (List.length data))))
+
+let show_stream (ws : awin list) : string =
+  let god h = if String.length h >= 22 then String.sub h 20 2 else "??" in
+  String.concat " " (List.map (fun w ->
+    String.concat "," (List.map (fun s -> if String.length s > 2 && String.sub s 0 2 = "H:" then "H" ^ god s else s) w.nonpage)
+    ^ (if w.pageset = [] then "" else Printf.sprintf "+%dp" (List.length w.pageset))
+    ^ (if w.synced then ";S" else ";-")) ws)
+
+let first_stream_diff (m : awin list) (r : awin list) : string option =
+  let rec go i m r = match m, r with
+    | [], [] -> None
+    | [], _ -> Some (Printf.sprintf "the real stream has %d more window(s) from window %d on" (List.length r) i)
+    | _, [] -> Some (Printf.sprintf "the model emits %d more window(s) from window %d on" (List.length m) i)
+    | a :: m', b :: r' ->
+        if a.synced <> b.synced then Some (Printf.sprintf "window %d: sync_data %s" i (if a.synced then "missing in the real stream" else "only in the real stream"))
+        else if a.nonpage <> b.nonpage then begin
+          let rec fd j x y = match x, y with
+            | [], [] -> "?"
+            | [], s :: _ -> Printf.sprintf "extra real op %d: %s" j (String.sub s 0 (min 24 (String.length s)))
+            | s :: _, [] -> Printf.sprintf "missing real op %d: %s" j (String.sub s 0 (min 24 (String.length s)))
+            | s :: x', t :: y' ->
+                if s = t then fd (j + 1) x' y'
+                else if String.length s = String.length t && String.length s > 600 then begin
+                  let k = ref 0 in
+                  while !k < String.length s && s.[!k] = t.[!k] do incr k done;
+                  Printf.sprintf "header write %d differs at byte %d (model %s real %s)" j ((!k - 2) / 2)
+                    (String.sub s (2 + 2 * ((!k - 2) / 2)) 2) (String.sub t (2 + 2 * ((!k - 2) / 2)) 2)
+                end else Printf.sprintf "op %d: model %s real %s" j (String.sub s 0 (min 24 (String.length s))) (String.sub t 0 (min 24 (String.length t))) in
+          Some (Printf.sprintf "window %d: %s" i (fd 0 a.nonpage b.nonpage))
+        end
+        else if a.pageset <> b.pageset then Some (Printf.sprintf "window %d: page writes differ (model %d, real %d)" i (List.length a.pageset) (List.length b.pageset))
+        else go (i + 1) m' r' in
+  go 0 m r
+
+let sub_bytes (l : n list) (off : int) (len : int) : n list =
+  let a = Array.of_list l in
+  if Array.length a < off + len then [] else Array.to_list (Array.sub a off len)
+let hdr_layout (h : n list) = sub_bytes h 24 8
+let hdr_slot (h : n list) (k : bool) = sub_bytes h (if k then 192 else 64) 128
+let hdr_god (h : n list) : n = match sub_bytes h 9 1 with [g] -> g | _ -> N0
+let prim_of_god (g : n) : bool = flag g (n_of_dec "1")
+
+(* real windows of a segment: ops up to and including each sync, then the unsynced tail *)
+let cut_windows (ops : rop list) : rop list list * rop list =
+  let rec go cur acc = function
+    | [] -> (List.rev acc, List.rev cur)
+    | RS :: r -> go [] (List.rev cur :: acc) r
+    | o :: r -> go (o :: cur) acc r in
+  go [] [] ops
+
+(* feed one segment to the model: returns the model's state afterwards and the operations it emitted *)
+let feed_segment (st : pst) (kind : string list) (real : rop list) (later_layout : n list option) : pst * op list * string option =
+  let pages_of w = List.filter_map (function RW (o, l) -> Some (o, [l]) | _ -> None) w in
+  let hdrs_of w = List.filter_map (function RH h -> Some h | _ -> None) w in
+  let all_hdrs = hdrs_of real in
+  match kind with
+  | "open" :: p :: vq :: rest ->
+      if p = "?" then (st, [], Some "the roots the real crate serves belong to neither slot") else begin
+        let d0 = st.p_d in
+        (* "open * v0 v1": both slots name the same trees; the served index is the one slot selection ends with *)
+        let (pb, vqb) =
+          if p <> "*" then (bool_of p, bool_of vq) else begin
+            let v0 = bool_of vq and v1 = (match rest with x :: _ -> bool_of x | [] -> false) in
+            let m0 = parse_hdr d0.d_hdr in
+            let v k = if k then v1 else v0 in
+            match select_primary m0 (v m0.hm_prim) (v (not m0.hm_prim)) with
+            | Some m1 -> (m1.hm_prim, v (not m1.hm_prim))
+            | None -> (m0.hm_prim, v (not m0.hm_prim))
+          end in
+        let d = { d_hdr = d0.d_hdr; d_len = cur_len st; d_p = pb; d_rp = []; d_vq = vqb; d_rq = None } in
+        let lay = match all_hdrs with h :: _ -> hdr_layout h | [] -> layout_at (hget d0.d_hdr) in
+        let q = match List.rev all_hdrs with h :: _ -> hdr_slot h (prim_of_god (hdr_god h)) | [] -> [] in
+        let o = { ro_lay = lay; ro_quick = List.length all_hdrs <= 2; ro_q = q } in
+        match recovery_run d o with
+        | None -> (st, [], Some "the model's open fails (recovery_run = None) but the real crate opened the image")
+        | Some a -> (a.a_st, a.a_ops, None)
+      end
+  | k :: _ ->
+      let (wins, tail) = cut_windows real in
+      let wins_a = Array.of_list wins in
+      let nw = Array.length wins_a in
+      let st = ref st in
+      let out = ref [] in
+      let note = ref None in
+      let commits = ref 0 in
+      let skip_hdr_windows = ref 0 in      (* windows that belong to a commit already fed (phase 2, close) *)
+      let step s = let a = run_step !st s in st := a.a_st; out := !out @ a.a_ops in
+      (* the layout the next header write carries (what grow / try_shrink computed) *)
+      let next_layout_from i =
+        let rec find j = if j >= nw then (match hdrs_of tail with h :: _ -> Some (hdr_layout h) | [] -> later_layout)
+          else match hdrs_of wins_a.(j) with h :: _ -> Some (hdr_layout h) | [] -> find (j + 1) in
+        match find i with Some l -> l | None -> (!st).p_mem.hm_layout in
+      let first_op_after i = if i + 1 < nw then (match wins_a.(i + 1) with o :: _ -> Some o | [] -> Some RS)
+                             else (match tail with o :: _ -> Some o | [] -> None) in
+      let feed_plain i w =
+        (* page writes: eviction; growing set_len: grow(); a shrinking set_len was issued by the commit before *)
+        let pg = pages_of w in
+        if pg <> [] then step (PEvict pg);
+        List.iter (function
+          | RL x when N.ltb (cur_len !st) x -> step (PGrow (x, next_layout_from i))
+          | _ -> ()) w in
+      for i = 0 to nw - 1 do
+        let w = wins_a.(i) in
+        match hdrs_of w with
+        | [] -> feed_plain i w
+        | h :: _ ->
+            if !skip_hdr_windows > 0 then begin
+              decr skip_hdr_windows;
+              let pg = pages_of w in if pg <> [] then step (PEvict pg)
+            end else begin
+              let pg = pages_of w in
+              if pg <> [] then step (PEvict pg);
+              incr commits;
+              let m = (!st).p_mem in
+              (* which kind of commit: told by the harness for user transactions and close; for the internal
+                 commits of compact() read off the god byte (unchanged = first phase of a two-phase commit) *)
+              let two = (match k with
+                | "txn1" -> false | "txn2" | "close" -> true
+                | _ -> N.eqb (hdr_god h) (hm_god m)) in
+              let q = hdr_slot h (not m.hm_prim) in
+              let last = if two then i + 1 else i in
+              let shrink = (match first_op_after last with
+                | Some (RL x) when N.ltb x (cur_len !st) -> Some (x, hdr_layout h)
+                | _ -> None) in
+              if two then skip_hdr_windows := 1;
+              if k = "close" then begin
+                skip_hdr_windows := 3;
+                step (PClose (q, [], [], shrink))
+              end else step (PCommit (two, q, [], [], shrink))
+            end
+      done;
+      (let pg = pages_of tail in if pg <> [] then step (PEvict pg));
+      (match k with
+       | "txn1" | "txn2" | "close" -> if !commits <> 1 then note := Some (Printf.sprintf "%d commits in a segment that must hold exactly one" !commits)
+       | "nd" | "abort" | "gap" -> if !commits <> 0 then note := Some "header writes outside a durable commit"
+       | _ -> ());
+      (* a non-durable commit leaves the header in memory only *)
+      (!st, !out, !note)
+  | [] -> (st, [], Some "empty segment kind")
+
+let run_protocol () =
+  (* read everything, trace by trace *)
+  let traces = ref [] in
+  let cur_tag = ref "" and cur_hdr = ref [] and cur_len0 = ref N0 in
+  let segs = ref [] in
+  let seg_kind = ref [] and seg_ops = ref [] in
+  let flush_trace () = if !cur_tag <> "" then traces := (!cur_tag, !cur_hdr, !cur_len0, List.rev !segs) :: !traces; segs := [] in
+  (try while true do
+    let line = input_line stdin in
+    match String.split_on_char ' ' line with
+    | ["P"; t; h; l] -> flush_trace (); cur_tag := t; cur_hdr := bytes_of_hex h; cur_len0 := n_of_dec l
+    | "G" :: k -> seg_kind := k; seg_ops := []
+    | ["O"; "H"; h] -> seg_ops := RH (bytes_of_hex h) :: !seg_ops
+    | ["O"; "W"; o; l] -> seg_ops := RW (n_of_dec o, n_of_dec l) :: !seg_ops
+    | ["O"; "L"; x] -> seg_ops := RL (n_of_dec x) :: !seg_ops
+    | ["O"; "S"] -> seg_ops := RS :: !seg_ops
+    | ["E"] -> segs := (!seg_kind, List.rev !seg_ops) :: !segs
+    | [""] | [] -> ()
+    | _ -> failwith "bad protocol line"
+  done with End_of_file -> ());
+  flush_trace ();
+  List.iter (fun (tag, hdr, len0, segs) ->
+    let m0 = parse_hdr hdr in
+    let d0 = { d_hdr = hdr; d_len = len0; d_p = m0.hm_prim; d_rp = []; d_vq = true; d_rq = None } in
+    let st = ref { p_d = d0; p_win = []; p_mem = m0; p_rfs = false; p_open = m0.hm_rr } in
+    let broken = ref false in
+    let segs_a = Array.of_list segs in
+    Array.iteri (fun i (kind, real) ->
+      let kname = String.concat "_" kind in
+      if !broken then Printf.printf "S %s %d %s skipped (after a difference in this trace)\n" tag i kname
+      else begin
+        (* layout bytes of the next header write in a later segment (a grow() whose layout is first written by a later commit) *)
+        let later = (let r = ref None in
+          for j = Array.length segs_a - 1 downto i + 1 do
+            (match List.filter_map (function RH h -> Some h | _ -> None) (snd segs_a.(j)) with h :: _ -> r := Some (hdr_layout h) | [] -> ())
+          done; !r) in
+        let pending_before = List.map rop_of_op (!st).p_win in
+        let (st', mops, note) = (try feed_segment !st kind real later with Failure e -> (!st, [], Some ("driver: " ^ e))) in
+        ignore pending_before;
+        let ms = abs_stream (List.map rop_of_op mops) and rs = abs_stream real in
+        let verdict = match note with
+          | Some w -> Some w
+          | None -> first_stream_diff ms rs in
+        (match verdict with
+         | None -> Printf.printf "S %s %d %s ok\n" tag i kname
+         | Some w ->
+             broken := true;
+             Printf.printf "S %s %d %s DIFF %s | model=%s | real=%s\n" tag i kname w (show_stream ms) (show_stream rs));
+        st := st'
+      end) segs_a) (List.rev !traces)
+
 let () =
   match Sys.argv with
   | [| _; "windows" |] -> run_windows ()
   | [| _; "recover" |] -> run_recover ()
-  | _ -> prerr_endline "usage: c01_driver windows|recover"; exit 2
+  | [| _; "protocol" |] -> run_protocol ()
+  | _ -> prerr_endline "usage: c01_driver windows|recover|protocol"; exit 2
